@@ -281,9 +281,9 @@ def evaluate_expression(expr, options=None, locals_=None, builtins=True):
 
             # string + <any>
             elif isinstance(left_value, str):
-                return left_value + value_string(right_value)
+                return _arithmetic(lambda: left_value + value_string(right_value))
             elif isinstance(right_value, str):
-                return value_string(left_value) + right_value
+                return _arithmetic(lambda: value_string(left_value) + right_value)
 
             # datetime + number
             elif isinstance(left_value, datetime.date) and _is_number(right_value):
